@@ -1,16 +1,21 @@
 package engine
 
 import (
+	"github.com/nyaruka/gocommon/urns"
 	"github.com/nyaruka/goflow/assets"
 	"github.com/nyaruka/goflow/contactql"
 	"github.com/nyaruka/goflow/envs"
+	"github.com/nyaruka/goflow/excellent/types"
 	"github.com/nyaruka/goflow/flows"
 	"github.com/nyaruka/goflow/flows/actions"
 	"github.com/nyaruka/goflow/flows/definition"
 	"github.com/nyaruka/goflow/flows/events"
+	"github.com/nyaruka/goflow/flows/resumes"
 	"github.com/nyaruka/goflow/flows/routers"
 	"github.com/nyaruka/goflow/flows/routers/waits"
+	"github.com/nyaruka/goflow/flows/triggers"
 	"github.com/nyaruka/goflow/zzverif"
+	"time"
 )
 
 type verifFieldAsset struct {
@@ -128,5 +133,76 @@ func verifCheckGroups(env envs.Environment, c *flows.Contact, groups []*flows.Gr
 	}
 	for _, g := range groups {
 		zzverif.Assert(view[string(g.UUID())] == (c.Groups().FindByUUID(g.UUID()) != nil), "a membership change was not reported in a contact_groups_changed event")
+	}
+}
+
+// VerifC06_RefreshedEnvironment: a query based group whose condition reads
+// differently under the environment's date format (joined > 03-04-2020: the
+// third of April day-first, the fourth of March month-first), a contact whose
+// field value lies between the two readings, a session that starts under one
+// date format, waits, and is resumed with an environment refresh to the other
+// format (or none), with or without a contact-modifying action before and
+// after the wait: whenever the engine hands the session back the contact is
+// in the group exactly when the query matches under the session's current
+// environment.
+// cover: environment-refreshed, modified-after-refresh, membership-flipped
+func VerifC06_RefreshedEnvironment() {
+	dayFirst := envs.NewBuilder().WithDateFormat(envs.DateFormatDayMonthYear).Build()
+	monthFirst := envs.NewBuilder().WithDateFormat(envs.DateFormatMonthDayYear).Build()
+	sa := verifNewAssets()
+	sa.fields = flows.NewFieldAssets([]assets.Field{&verifFieldAsset{"joined", assets.FieldTypeDatetime}})
+	g := flows.VerifQueryGroup(dayFirst, sa.fields, "b0000000-0000-4000-8000-000000000001", "Late", contactql.NewCondition(contactql.PropertyTypeField, "joined", contactql.OpGreaterThan, "03-04-2020"))
+	zzverif.Assert(g != nil, "setup: query group did not validate")
+	var groups []*flows.Group
+	sa.groups, groups = flows.VerifGroupAssets(dayFirst, sa.fields, g)
+
+	var acts0, acts1 []flows.Action
+	if zzverif.Choice("set-name-before-wait", 2) == 1 {
+		acts0 = append(acts0, actions.NewSetContactName("a0", "Ann"))
+	}
+	modifiesAfter := zzverif.Choice("set-name-after-wait", 2) == 1
+	if modifiesAfter {
+		acts1 = append(acts1, actions.NewSetContactName("a1", "Bea"))
+	}
+	acts0 = append(acts0, actions.NewSendMsg("m0", "joined @fields.joined", nil, nil, false)) // (a template is evaluated before the wait)
+	cats := []flows.Category{routers.NewCategory("c0", "All", verifExitUUID(9, 0, 0))}
+	router := routers.NewSwitch(waits.NewMsgWait(nil, nil), "", cats, "x", nil, "c0")
+	n0 := definition.NewNode(verifNodeUUID(0, 0), acts0, router, []flows.Exit{definition.NewExit(verifExitUUID(9, 0, 0), verifNodeUUID(0, 1))})
+	n1 := definition.NewNode(verifNodeUUID(0, 1), acts1, nil, []flows.Exit{definition.NewExit(verifExitUUID(9, 0, 1), "")})
+	f, err := definition.NewFlow(verifFlowUUID(0), "F0", "eng", flows.FlowTypeMessaging, 1, 10, definition.NewLocalization(), []flows.Node{n0, n1}, nil, nil)
+	zzverif.Assert(err == nil, "setup: flow did not validate")
+	sa.add(f)
+
+	start, other := dayFirst, monthFirst
+	if zzverif.Choice("starts-month-first", 2) == 1 {
+		start, other = monthFirst, dayFirst
+	}
+	contact := flows.NewEmptyContact(sa, "Bob", "eng", nil)
+	joined := time.Date(2020, 3, 15, 12, 0, 0, 0, time.UTC) // after the fourth of March, before the third of April
+	contact.Fields().Set(sa.fields.Get("joined"), flows.NewValue(types.NewXText("2020-03-15T12:00:00Z"), types.NewXDateTime(joined), nil, "", "", ""))
+	trig := triggers.NewBuilder(start, assets.NewFlowReference(verifFlowUUID(0), "F0"), contact).Manual().Build()
+	sess, _, err := verifEngine(10, 10).NewSession(sa, trig)
+	zzverif.Assert(err == nil && sess.Status() == flows.SessionStatusWaiting, "setup: session not waiting")
+	check := func() {
+		c := sess.Contact()
+		in := c.Groups().FindByUUID(groups[0].UUID()) != nil
+		want := groups[0].CheckQueryBasedMembership(sess.Environment(), c)
+		zzverif.Assert(in == want, "query based group membership does not match the contact under the session's environment when the engine hands back the session")
+	}
+	check()
+	wasIn := sess.Contact().Groups().FindByUUID(groups[0].UUID()) != nil
+	var renv envs.Environment
+	if zzverif.Choice("environment-refreshed", 2) == 1 {
+		renv = other
+		zzverif.Cover("environment-refreshed")
+		if modifiesAfter {
+			zzverif.Cover("modified-after-refresh")
+		}
+	}
+	_, err = sess.Resume(resumes.NewMsg(renv, nil, flows.NewMsgIn(flows.MsgUUID("msg3"), urns.URN("twitter:bob"), nil, "hi", nil)))
+	zzverif.Assert(err == nil, "setup: resume failed")
+	check()
+	if wasIn != (sess.Contact().Groups().FindByUUID(groups[0].UUID()) != nil) {
+		zzverif.Cover("membership-flipped")
 	}
 }
